@@ -352,7 +352,7 @@ theorem wsLoop_main {sortFn : List Ev → List Ev} (hf : IsSort sortFn) {n : Nat
           rw [hexec] at hstep
           simp only at hstep
           simp only [wsLoop, hstep, Bool.false_and]
-          exact ⟨fun h => by cases h, fun _ => trivial⟩
+          exact ⟨fun h => (by cases h), fun _ => trivial⟩
       · simp only [regionsOk, hk, if_false] at hreg
         have hstep := @wsStep_X_other sortFn s e hst hk
         have hinv' : Inv n (addEv s s.done.length e) (pre ++ [e]) := by
